@@ -72,6 +72,7 @@ func (cache *TxCache) AddTx(tx *WrappedTransaction) (ok bool, added bool) {
 	addedInByHash := cache.txByHash.addTx(tx)
 	addedInBySender, evicted := cache.txListBySender.addTxReturnEvicted(tx)
 	cache.mutTxOperation.Unlock()
+	verifPause("txcache.addtx.afterUnlock")
 	if addedInByHash != addedInBySender {
 		// This can happen  when two go-routines concur to add the same transaction:
 		// - A adds to "txByHash"
@@ -147,6 +148,7 @@ func (cache *TxCache) RemoveTxByHash(txHash []byte) bool {
 		return false
 	}
 
+	verifPause("txcache.remove.betweenIndexes")
 	evicted := cache.txListBySender.removeTransactionsWithLowerOrEqualNonceReturnHashes(tx)
 	if len(evicted) > 0 {
 		cache.txByHash.RemoveTxsBulk(evicted)
